@@ -262,8 +262,14 @@ func C07(sp *spec.Spec, genDir string, mounted map[string][][2]string) *Verdict 
 		for k := range dd.ops {
 			got[k] = true
 		}
+		if mounted == nil {
+			// the generated code could not be built (C01's matter): what the server mounts is unknown, the documents
+			// are still judged against the design
+			got = nil
+			v.Notes = append(v.Notes, "mounted-routes-unknown")
+		}
 		for k := range want {
-			if !got[k] {
+			if mounted != nil && !got[k] {
 				v.add("operation-mounted-but-not-documented:"+dd.name+":"+opClass(sp, k), "%s: %s is mounted by the generated server but missing from the document", dd.name, k)
 			}
 		}
